@@ -457,6 +457,7 @@ int main(int argc, char** argv) {
   registerMorph();
   registerInOut();
   registerAdaptor();
+  registerExtra(); // full template matrix (c11_graphs_full only)
 
   // optional filters (debugging / focused runs)
   std::string fFamily = H.param("family"), fOp = H.param("op"), fEtype = H.param("etype"), fCfg = H.param("cfg");
